@@ -164,3 +164,44 @@ extern "C" void c18_malloc()
   m->recycleChunk(h2, g2);
   vp_reach();
 }
+
+// Arena growth: the initial arena (hook H1) is 16 slots; a script of three requests with
+// compile-time sizes (-DS1 -DS2 -DS3; symbolic sizes made every realloc symbolic-sized: 11 GB) forces the backing array to grow (realloc) at the second or third
+// request.  Every chunk must stay addressable over its whole length (CBMC bounds checks on the
+// writes to the first and last slot) and keep its contents across the reallocation.
+#ifndef MALLOC_ONLY
+#ifndef S1
+#define S1 4
+#define S2 14
+#define S3 20
+#endif
+extern "C" void c18_growth()
+{
+  memstats ms;
+  STYLE st("style");
+  mm = st.initManager(GRAN, MINSZ, ms);
+  vp_assert(mm != nullptr, "manager created");
+  msbF = mm->firstSlotMustClearMSB(); msbL = mm->lastSlotMustClearMSB();
+  node_address h[3]; size_t n[3]; slot_t f[3], l[3];
+  const size_t script[3] = { S1, S2, S3 };     // compile-time sizes: every realloc size is concrete
+  for (int i = 0; i < 3; i++) {
+    size_t want = script[i];
+    size_t got = want;
+    h[i] = mm->requestChunk(got);
+    vp_assert(h[i] != 0 && got >= want, "request succeeds with at least the requested size");
+    vp_assert(mm->isValidHandle(h[i]) && mm->isValidHandle(h[i] + got - 1), "every slot of the chunk has a valid handle");
+    n[i] = got;
+    for (int j = 0; j < i; j++) vp_assert(h[i] + got <= h[j] || h[j] + n[j] <= h[i], "new chunk overlaps no live chunk");
+    slot_t* c = (slot_t*) mm->getChunkAddress(h[i]);
+    f[i] = nondet_slot(msbF); l[i] = nondet_slot(msbL);
+    c[0] = f[i]; c[got-1] = l[i];                // must be inside the (possibly regrown) array
+    for (int j = 0; j <= i; j++) {
+      slot_t* d = (slot_t*) mm->getChunkAddress(h[j]);
+      vp_assert(d[0] == f[j] && d[n[j]-1] == l[j], "contents of live chunks survive arena growth");
+    }
+  }
+  vp_assert(S1 < 8, "script starts with a small request so that the initial arena is the 16-slot one (hook H1)");
+  if (h[1] + n[1] > 16 && h[2] + n[2] > h[1] + n[1]) vp_cover(1);   // the arena had to grow twice beyond its initial 16 slots
+  vp_reach();
+}
+#endif
